@@ -1,6 +1,11 @@
 import Pycoin.Model.Sign
 import Pycoin.Proofs.SignDer
 import Pycoin.Proofs.SignEval
+import Pycoin.Proofs.SignWrap
+import Pycoin.Proofs.SignState
+import Pycoin.Proofs.SignParse
+import Pycoin.Proofs.SignExisting
+import Pycoin.Proofs.SignWho
 import Pycoin.Proofs.SignLink
 import Pycoin.Proofs.SignOrder
 import Pycoin.Proofs.SignKeychain
@@ -19,15 +24,22 @@ C05 — property theorems about the signer model (`Model/Sign.lean`).
 * `C05_p2wpkh_end_to_end`, `C05_p2sh_p2wpkh_end_to_end`, `C05_p2pkh_end_to_end`, `C05_p2pk_end_to_end`: for every secret, tx and
   input, the model's signature is accepted by `VerifyScript` with `CheckSig` = ECDSA-verify (C01) of the C04 digest;
 * `C05_witness_digest_is_bip143`, `C05_legacy_digest_is_consensus`: the digest of those theorems is the consensus one (C04);
-* `C05_multisig_valid_partial`, `C05_multisig_p2wsh_valid_partial`: full-script m-of-n for all 1 ≤ m ≤ n ≤ 16, bare and P2WSH;
+* `C05_multisig_valid`, `C05_multisig_p2sh_valid`, `C05_multisig_p2wsh_valid`, `C05_multisig_p2sh_p2wsh_valid`: full-script m-of-n for
+  all 1 ≤ m ≤ n ≤ 20 (counts 17..20 as the one-byte pushes pycoin emits), the four wrappers; `C05_p2sh_multisig_size`;
 * `C05_keychain_get_spec`, `C05_keychain_no_negative_cache`, `C05_keychain_miss_then_hit`, `C05_keychain_add_secret`;
 * `C05_p2pkh_valid`, `C05_p2pk_valid`, `C05_p2wpkh_valid`, `C05_p2sh_p2wpkh_valid` (+ `_signed_valid` forms): `VerifyScript` of
   `Spec/Consensus.lean` accepts the solutions, for every flag set under which signature and key pass the encoding rules;
 * `C05_ecdsa_chk_accepts`: the emitted signature satisfies `CheckSig` instantiated with ECDSA-verify of the digest the model
   computes (C04's `Model/Sighash.lean` in the driver);
 * `C05_multisig_loop_accepts`: the CHECKMULTISIG matching loop accepts signatures laid out in key order (any `m ≤ n`);
-* `C05_partial_order_independent_partial`, `C05_partial_placeholders`, `C05_placeholder_invalid_partial`: partial multisig
-  signing;
+* `C05_multisig_end_to_end`: for each of the four wrappers (`Wrap`) and every 1 ≤ m ≤ n ≤ 20, the model's solver output for a
+  fresh input whose lookup holds at least m of the listed secrets is accepted by `VerifyScript` with `CheckSig` = ECDSA-verify
+  (C01) of the C04 digest; `C05_multisig_wrong_key_rejected_partial`: a signature made with a wrong secret leaves it rejected;
+* `C05_partial_passes_partial`, `C05_partial_order_independent_passes_partial`: any sequence of signing passes on the model ends with
+  `min m (distinct listed keys supplied)` signatures and `m −` that many placeholders, is accepted exactly when m distinct
+  listed keys were supplied, independently of the order of the passes (under two explicit unforgeability-style hypotheses);
+  `C05_partial_order_independent_partial`, `C05_partial_placeholders`, `C05_placeholder_invalid_partial`: the combinatorial core;
+* `C05_who_signed_exact_partial`: the model of `who_signed` reports exactly the keys that signed; `C05_next_pass_reads_solution`;
 * `C05_sign_frame`, `C05_sign_frame_empty`: nothing but script and witness of the chosen, not yet valid inputs changes.
 -/
 namespace Pycoin.Sign
@@ -410,7 +422,8 @@ example : standardFlags.strictenc = true ∧ standardFlags.lowS = true ∧ stand
 accepts, for every `m ≤ n` (no bound on `n` is needed here), signatures that pass the encoding rules and verify for a
 subsequence of the keys — which is how the solver lays them out: `sig_list` is filled in increasing index of `sec_list`, the
 keys top of stack first (`solveBase`, `sortSigs`).  Induction over the keys.
-The full scripts around the loop are `C05_multisig_valid_partial` (bare) and `C05_multisig_p2wsh_valid_partial` below. -/
+The full scripts around the loop are `C05_multisig_valid` (bare), `C05_multisig_p2sh_valid`, `C05_multisig_p2wsh_valid` and
+`C05_multisig_p2sh_p2wsh_valid` below. -/
 theorem C05_multisig_loop_accepts (chk : PChk) (flags : Flags) (sv : SigVersion) (code : Bytes) (keys sigs : List Bytes)
     (hemb : Embeds chk code sv sigs keys)
     (hs : ∀ s ∈ sigs, checkSignatureEncoding s flags = none) (hk : ∀ k ∈ keys, checkPubKeyEncoding k flags sv = none) :
@@ -459,14 +472,41 @@ theorem C05_ecdsa_chk_accepts (C : Crypto) (hN : C.order = secp256k1N) (dig : Si
   have e2 : (((lowS secp256k1N s).toNat : Nat) : Int) = lowS secp256k1N s := by omega
   rw [e1, e2, hv]
 
-/-- **Bare m-of-n multisig, full script** (`1 ≤ m ≤ n ≤ 16`, the `OP_n` encodings), by induction over the keys: the consensus
-specification accepts `OP_0 <sig>…` — the dummy first (NULLDUMMY), signatures in key order — against
-`OP_m <key>… OP_n CHECKMULTISIG` under every flag set for which signatures and keys pass the encoding rules, when `CheckSig`
-accepts the signatures for a subsequence of the keys.
-`_partial` relative to the property's clause: `n ≤ 16` (for 17 ≤ n ≤ 20 the counts are one-byte pushes, not `OP_n`), and the P2SH
-and P2SH-P2WSH wrappers (redeem-script pushes with PUSHDATA1/2) are not carried; those are exercised on the implementation by
-the harness for all `1 ≤ m ≤ n ≤ 20` within the size limits. -/
-theorem C05_multisig_valid_partial (chk : PChk) (m : Nat) (keys sigsTop : List Bytes) (flags : Flags) (tx : TxCtx)
+/-- the script code `CheckSig` sees in a witness-v0 script is the script itself -/
+theorem scriptCodeFor_witness' (script : Bytes) (flags : Flags) (tx : TxCtx) (sigs : List Bytes) :
+    scriptCodeFor ⟨script, flags, .witnessV0, tx⟩ ⟨[], [], [], 0, 0⟩ sigs = script := by
+  simp [scriptCodeFor]
+
+/-! ## m-of-n multisig, every `1 ≤ m ≤ n ≤ 20`, the four wrappers -/
+
+/-- **Bare m-of-n multisig, full script, every `1 ≤ m ≤ n ≤ 20`.**  The consensus specification accepts `OP_0 <sig>…` — the dummy
+first (NULLDUMMY), signatures in key order — against `m <key>… n CHECKMULTISIG` under every flag set for which signatures and
+keys pass the encoding rules, when `CheckSig` accepts the signatures for a subsequence of the keys.  The counts are written as
+pycoin's script compiler writes them (`multisigScriptN`): `OP_1 … OP_16`, and for 17..20 the one-byte pushes `01 11 … 01 14`,
+which is also the only encoding MINIMALDATA admits (`checkMinimalPush_count`, `checkMinimalPush_count_small`). -/
+theorem C05_multisig_valid (chk : PChk) (m : Nat) (keys sigsTop : List Bytes) (flags : Flags) (tx : TxCtx)
+    (hm : sigsTop.length = m) (hm1 : 1 ≤ m) (hmn : m ≤ keys.length) (hn : keys.length ≤ 20)
+    (hkeys : ∀ k ∈ keys, 2 ≤ k.length ∧ k.length ≤ 75) (hsigs : ∀ s ∈ sigsTop, 2 ≤ s.length ∧ s.length ≤ 75)
+    (hse : ∀ s ∈ sigsTop, checkSignatureEncoding s flags = none)
+    (hke : ∀ k ∈ keys, checkPubKeyEncoding k flags .base = none)
+    (hemb : Embeds chk (scriptCodeFor ⟨multisigScriptN m keys, flags, .base, tx⟩ ⟨[], [], [], 0, 0⟩ sigsTop) .base
+      sigsTop keys.reverse) :
+    verifyScript chk (pushesOf ([] :: sigsTop.reverse)) (multisigScriptN m keys) [] flags tx = none := by
+  have hitems : ∀ d ∈ ([] : Bytes) :: sigsTop.reverse, d.length = 0 ∨ (2 ≤ d.length ∧ d.length ≤ 75) := by
+    intro d hd
+    rcases List.mem_cons.mp hd with h | h
+    · left; rw [h]; rfl
+    · right; exact hsigs d (List.mem_reverse.mp h)
+  rw [verifyScript_bare_eq chk _ _ flags tx (sigsTop ++ [[]])
+    (isPushOnly_pushes _ (fun d hd => by rcases hitems d hd with h | h <;> omega))
+    (by have := evalScript_pushes chk ([] :: sigsTop.reverse) flags tx hitems (by simp; omega); simpa using this)
+    (multisigN_not_witness m keys (by omega) hkeys) (multisigN_not_p2sh m keys)]
+  rw [evalScript_multisigN chk m keys sigsTop flags tx .base hm hm1 hmn hn hkeys
+    (multisigLoop_accepts chk flags .base _ keys.reverse sigsTop hemb hse (fun k hk => hke k (List.mem_reverse.mp hk)))]
+  exact legacyVerdict_true flags
+
+/-- the `OP_n` form for `n ≤ 16` (the statement this file carried before the counts 17..20 were covered) -/
+theorem C05_multisig_valid_opn (chk : PChk) (m : Nat) (keys sigsTop : List Bytes) (flags : Flags) (tx : TxCtx)
     (hm : sigsTop.length = m) (hm1 : 1 ≤ m) (hmn : m ≤ keys.length) (hn : keys.length ≤ 16)
     (hkeys : ∀ k ∈ keys, 2 ≤ k.length ∧ k.length ≤ 75) (hsigs : ∀ s ∈ sigsTop, 2 ≤ s.length ∧ s.length ≤ 75)
     (hse : ∀ s ∈ sigsTop, checkSignatureEncoding s flags = none)
@@ -474,25 +514,35 @@ theorem C05_multisig_valid_partial (chk : PChk) (m : Nat) (keys sigsTop : List B
     (hemb : Embeds chk (scriptCodeFor ⟨multisigScript m keys, flags, .base, tx⟩ ⟨[], [], [], 0, 0⟩ sigsTop) .base
       sigsTop keys.reverse) :
     verifyScript chk (pushesOf ([] :: sigsTop.reverse)) (multisigScript m keys) [] flags tx = none := by
-  have hitems : ∀ d ∈ ([] : Bytes) :: sigsTop.reverse, d.length = 0 ∨ (2 ≤ d.length ∧ d.length ≤ 75) := by
+  rw [← multisigScriptN_eq m keys (by omega) hn] at hemb ⊢
+  exact C05_multisig_valid chk m keys sigsTop flags tx hm hm1 hmn (by omega) hkeys hsigs hse hke hemb
+
+/-- **P2WSH m-of-n multisig, every `1 ≤ m ≤ n ≤ 20`**: empty scriptSig, witness `[ "" , sig…, witnessScript ]` against
+`OP_0 <sha256 witnessScript>`; needs WITNESS and a program that is not all zero bytes.  (The witness script is not a stack
+item: no 520-byte limit applies to it, and 20 keys stay far below the 10,000-byte script limit.) -/
+theorem C05_multisig_p2wsh_valid (chk : PChk) (m : Nat) (keys sigsTop : List Bytes) (prog : Bytes) (flags : Flags) (tx : TxCtx)
+    (hw : flags.witness = true)
+    (hprog : Hash.sha256 (multisigScriptN m keys) = prog) (hplen : prog.length = 32) (htrue : castToBool prog = true)
+    (hm : sigsTop.length = m) (hm1 : 1 ≤ m) (hmn : m ≤ keys.length) (hn : keys.length ≤ 20)
+    (hkeys : ∀ k ∈ keys, 2 ≤ k.length ∧ k.length ≤ 75) (hsigs : ∀ s ∈ sigsTop, s.length ≤ 520)
+    (hse : ∀ s ∈ sigsTop, checkSignatureEncoding s flags = none)
+    (hke : ∀ k ∈ keys, checkPubKeyEncoding k flags .witnessV0 = none)
+    (hemb : Embeds chk (multisigScriptN m keys) .witnessV0 sigsTop keys.reverse) :
+    verifyScript chk [] (witnessV0Script prog) (([] : Bytes) :: sigsTop.reverse ++ [multisigScriptN m keys]) flags tx = none := by
+  have hitems : ∀ d ∈ ([] : Bytes) :: sigsTop.reverse, d.length ≤ 520 := by
     intro d hd
     rcases List.mem_cons.mp hd with h | h
-    · left; rw [h]; rfl
-    · right; exact hsigs d (List.mem_reverse.mp h)
-  apply verifyScript_plain chk _ _ flags tx (sigsTop ++ [[]]) [1]
-  · exact isPushOnly_pushes _ (fun d hd => by rcases hitems d hd with h | h <;> omega)
-  · have := evalScript_pushes chk ([] :: sigsTop.reverse) flags tx hitems (by simp; omega)
-    simpa using this
-  · exact evalScript_multisig chk m keys sigsTop flags tx .base hm hm1 hmn hn hkeys
-      (multisigLoop_accepts chk flags .base _ keys.reverse sigsTop hemb hse
-        (fun k hk => hke k (List.mem_reverse.mp hk)))
-  · simp [castToBool]
-  · exact multisig_not_witness m keys (by omega) hkeys
-  · exact multisig_not_p2sh m keys (by omega)
+    · rw [h]; simp
+    · exact hsigs d (List.mem_reverse.mp h)
+  rw [verifyScript_p2wsh_eq chk _ _ prog flags tx hw hprog hplen htrue hitems]
+  have hrev : (([] : Bytes) :: sigsTop.reverse).reverse = sigsTop ++ [[]] := by simp
+  rw [hrev, evalScript_multisigN chk m keys sigsTop flags tx .witnessV0 hm hm1 hmn hn hkeys
+    (by rw [scriptCodeFor_witness']; exact multisigLoop_accepts chk flags .witnessV0 _ keys.reverse sigsTop hemb hse
+          (fun k hk => hke k (List.mem_reverse.mp hk)))]
+  exact witnessVerdict_true
 
-/-- **P2WSH m-of-n multisig, full script** (`1 ≤ m ≤ n ≤ 16`): empty scriptSig, witness `[ "" , sig…, witnessScript ]` against
-`OP_0 <sha256 witnessScript>`; needs WITNESS and a program that is not all zero bytes. -/
-theorem C05_multisig_p2wsh_valid_partial (chk : PChk) (m : Nat) (keys sigsTop : List Bytes) (prog : Bytes) (flags : Flags) (tx : TxCtx)
+/-- the `OP_n` form for `n ≤ 16` -/
+theorem C05_multisig_p2wsh_valid_opn (chk : PChk) (m : Nat) (keys sigsTop : List Bytes) (prog : Bytes) (flags : Flags) (tx : TxCtx)
     (hw : flags.witness = true)
     (hprog : Hash.sha256 (multisigScript m keys) = prog) (hplen : prog.length = 32) (htrue : castToBool prog = true)
     (hm : sigsTop.length = m) (hm1 : 1 ≤ m) (hmn : m ≤ keys.length) (hn : keys.length ≤ 16)
@@ -501,50 +551,106 @@ theorem C05_multisig_p2wsh_valid_partial (chk : PChk) (m : Nat) (keys sigsTop : 
     (hke : ∀ k ∈ keys, checkPubKeyEncoding k flags .witnessV0 = none)
     (hemb : Embeds chk (multisigScript m keys) .witnessV0 sigsTop keys.reverse) :
     verifyScript chk [] (witnessV0Script prog) (([] : Bytes) :: sigsTop.reverse ++ [multisigScript m keys]) flags tx = none := by
-  have hcode : scriptCodeFor ⟨multisigScript m keys, flags, .witnessV0, tx⟩ ⟨[], [], [], 0, 0⟩ sigsTop = multisigScript m keys := by
-    simp [scriptCodeFor]
-  have hev := evalScript_multisig chk m keys sigsTop flags tx .witnessV0 hm hm1 hmn hn hkeys
-    (by rw [hcode]; exact multisigLoop_accepts chk flags .witnessV0 _ keys.reverse sigsTop hemb hse
-          (fun k hk => hke k (List.mem_reverse.mp hk)))
-  have hvw : verifyWitnessProgramM (m := Id) (fun a b c d => chk a b c d)
-      (([] : Bytes) :: sigsTop.reverse ++ [multisigScript m keys]) 0 prog flags tx = none := by
-    unfold verifyWitnessProgramM
-    have hrev : (([] : Bytes) :: sigsTop.reverse ++ [multisigScript m keys]).reverse = multisigScript m keys :: (sigsTop ++ [[]]) := by
-      simp
-    have hany : (sigsTop ++ [([] : Bytes)]).any (fun it => decide (it.length > MAX_SCRIPT_ELEMENT_SIZE)) = false := by
-      rw [List.any_eq_false]
-      intro x hx
-      have hx520 : x.length ≤ 520 := by
-        rcases List.mem_append.mp hx with h | h
-        · exact hsigs x h
-        · simp at h; rw [h]; simp
-      simp [MAX_SCRIPT_ELEMENT_SIZE]; omega
-    simp only [hplen, WITNESS_V0_SCRIPTHASH_SIZE, hrev, hprog]
-    simp [hany, bind, pure]
-    have : evalScriptM (m := Id) (fun a b c d => chk a b c d) (sigsTop ++ [[]]) (multisigScript m keys) flags tx .witnessV0
-        = .ok [[1]] := hev
-    rw [this]
-    simp [castToBool]
-  unfold verifyScript verifyScriptM
-  have hpo : isPushOnly [] = true := by simp [isPushOnly, isPushOnlyAux]
-  simp only [evalScriptM_id, hpo]
-  simp only [Id.run, bind, pure]
-  rw [evalScript_empty]
-  simp only []
-  rw [evalScript_witnessV0Script chk [] prog flags tx (by omega) (by omega) (by simp)]
-  simp only [hw, isWitnessProgram_v0 prog (by omega) (by omega), htrue, witnessV0_not_p2sh prog (Or.inr hplen)]
-  simp only [↓reduceIte]
-  rw [hvw]
-  simp
+  rw [← multisigScriptN_eq m keys (by omega) hn] at hemb hprog ⊢
+  exact C05_multisig_p2wsh_valid chk m keys sigsTop prog flags tx hw hprog hplen htrue hm hm1 hmn (by omega) hkeys hsigs hse hke hemb
+
+/-- **P2SH m-of-n multisig.**  scriptSig = `OP_0 <sig>… <redeemScript>`, the redeem script pushed as `CScript << vch` pushes it
+(direct push up to 75 bytes, `PUSHDATA1` up to 255, `PUSHDATA2` beyond: `getScriptOp_pushData`), against
+`HASH160 <hash160 redeemScript> EQUAL`; needs the P2SH flag.  The redeem script is a stack item: at most 520 bytes (`hsize`), which
+is what bounds `n` under P2SH — `C05_p2sh_multisig_size`: 15 compressed or 7 uncompressed keys. -/
+theorem C05_multisig_p2sh_valid (chk : PChk) (m : Nat) (keys sigsTop : List Bytes) (hr : Bytes) (flags : Flags) (tx : TxCtx)
+    (hp : flags.p2sh = true)
+    (hhr : Hash.hash160 (multisigScriptN m keys) = hr) (hrlen : hr.length = 20)
+    (hsize : (multisigScriptN m keys).length ≤ 520)
+    (hm : sigsTop.length = m) (hm1 : 1 ≤ m) (hmn : m ≤ keys.length) (hn : keys.length ≤ 20)
+    (hkeys : ∀ k ∈ keys, 2 ≤ k.length ∧ k.length ≤ 75) (hsigs : ∀ s ∈ sigsTop, 2 ≤ s.length ∧ s.length ≤ 75)
+    (hse : ∀ s ∈ sigsTop, checkSignatureEncoding s flags = none)
+    (hke : ∀ k ∈ keys, checkPubKeyEncoding k flags .base = none)
+    (hemb : Embeds chk (scriptCodeFor ⟨multisigScriptN m keys, flags, .base, tx⟩ ⟨[], [], [], 0, 0⟩ sigsTop) .base
+      sigsTop keys.reverse) :
+    verifyScript chk (pushesOf ([] :: sigsTop.reverse) ++ pushData (multisigScriptN m keys)) (p2shScript hr) [] flags tx
+      = none := by
+  have hitems : ∀ d ∈ ([] : Bytes) :: sigsTop.reverse, d.length = 0 ∨ (2 ≤ d.length ∧ d.length ≤ 75) := by
+    intro d hd
+    rcases List.mem_cons.mp hd with h | h
+    · left; rw [h]; rfl
+    · right; exact hsigs d (List.mem_reverse.mp h)
+  have h2 : 2 ≤ (multisigScriptN m keys).length := by
+    have := countPush_length m
+    simp [multisigScriptN]; split at this <;> omega
+  have hev := evalScript_pushes_pushData chk ([] :: sigsTop.reverse) (multisigScriptN m keys) flags tx hitems
+    (by simp; omega) h2 hsize
+  have hrev : (([] : Bytes) :: sigsTop.reverse).reverse = sigsTop ++ [[]] := by simp
+  rw [hrev] at hev
+  rw [verifyScript_p2sh_eq chk _ (multisigScriptN m keys) hr (sigsTop ++ [[]]) flags tx hp
+    (isPushOnly_pushes_pushData _ _ (fun d hd => by rcases hitems d hd with h | h <;> omega) hsize)
+    hev hhr hrlen (by simp; omega) (multisigN_not_witness m keys (by omega) hkeys)]
+  rw [evalScript_multisigN chk m keys sigsTop flags tx .base hm hm1 hmn hn hkeys
+    (multisigLoop_accepts chk flags .base _ keys.reverse sigsTop hemb hse (fun k hk => hke k (List.mem_reverse.mp hk)))]
+  exact legacyVerdict_true flags
+
+/-- **P2SH-P2WSH m-of-n multisig, every `1 ≤ m ≤ n ≤ 20`**: scriptSig = the push of `OP_0 <sha256 witnessScript>` (34 bytes: a
+direct push), witness `[ "", sig…, witnessScript ]`, against `HASH160 <hash160 redeem> EQUAL`; needs P2SH and WITNESS. -/
+theorem C05_multisig_p2sh_p2wsh_valid (chk : PChk) (m : Nat) (keys sigsTop : List Bytes) (prog hr : Bytes) (flags : Flags)
+    (tx : TxCtx) (hp : flags.p2sh = true) (hw : flags.witness = true)
+    (hprog : Hash.sha256 (multisigScriptN m keys) = prog) (hplen : prog.length = 32) (htrue : castToBool prog = true)
+    (hhr : Hash.hash160 (witnessV0Script prog) = hr) (hrlen : hr.length = 20)
+    (hm : sigsTop.length = m) (hm1 : 1 ≤ m) (hmn : m ≤ keys.length) (hn : keys.length ≤ 20)
+    (hkeys : ∀ k ∈ keys, 2 ≤ k.length ∧ k.length ≤ 75) (hsigs : ∀ s ∈ sigsTop, s.length ≤ 520)
+    (hse : ∀ s ∈ sigsTop, checkSignatureEncoding s flags = none)
+    (hke : ∀ k ∈ keys, checkPubKeyEncoding k flags .witnessV0 = none)
+    (hemb : Embeds chk (multisigScriptN m keys) .witnessV0 sigsTop keys.reverse) :
+    verifyScript chk (pushesOf [witnessV0Script prog]) (p2shScript hr)
+      (([] : Bytes) :: sigsTop.reverse ++ [multisigScriptN m keys]) flags tx = none := by
+  have hitems : ∀ d ∈ ([] : Bytes) :: sigsTop.reverse, d.length ≤ 520 := by
+    intro d hd
+    rcases List.mem_cons.mp hd with h | h
+    · rw [h]; simp
+    · exact hsigs d (List.mem_reverse.mp h)
+  rw [verifyScript_p2sh_p2wsh_eq chk _ _ prog hr flags tx hp hw hprog hplen htrue hhr hrlen hitems]
+  have hrev : (([] : Bytes) :: sigsTop.reverse).reverse = sigsTop ++ [[]] := by simp
+  rw [hrev, evalScript_multisigN chk m keys sigsTop flags tx .witnessV0 hm hm1 hmn hn hkeys
+    (by rw [scriptCodeFor_witness']; exact multisigLoop_accepts chk flags .witnessV0 _ keys.reverse sigsTop hemb hse
+          (fun k hk => hke k (List.mem_reverse.mp hk)))]
+  exact witnessVerdict_true
+
+/-- **Which (m, n) fit under P2SH.**  The redeem script `m <key>… n CHECKMULTISIG` has `3 + Σ (1 + |key|)` bytes for `n ≤ 16`
+(one more per count above 16).  With the 520-byte limit on stack items: all keys compressed (33 bytes) ⇒ exactly `n ≤ 15`; all
+keys uncompressed (65 bytes) ⇒ exactly `n ≤ 7`; any `1 ≤ m ≤ n`.  So under P2SH the counts are always `OP_n`; the push counts
+17..20 occur only bare and under P2WSH / P2SH-P2WSH, where the script is not a stack item. -/
+theorem C05_p2sh_multisig_size (m : Nat) (keys : List Bytes) (hmn : m ≤ keys.length) (hn : keys.length ≤ 20) :
+    ((∀ k ∈ keys, k.length = 33) → ((multisigScriptN m keys).length ≤ 520 ↔ keys.length ≤ 15)) ∧
+    ((∀ k ∈ keys, k.length = 65) → ((multisigScriptN m keys).length ≤ 520 ↔ keys.length ≤ 7)) := by
+  have hl : ∀ c, (∀ k ∈ keys, k.length = c) → (pushesOf keys).length = keys.length * (c + 1) := by
+    intro c hc
+    clear hmn hn
+    induction keys with
+    | nil => simp [pushesOf]
+    | cons d r ih =>
+      have e : pushesOf (d :: r) = directPush d ++ pushesOf r := by simp [pushesOf]
+      rw [e, List.length_append, ih (fun k hk => hc k (List.mem_cons_of_mem _ hk))]
+      simp [directPush, hc d (by simp), Nat.succ_mul]; omega
+  have c1 := countPush_length m
+  have c2 := countPush_length keys.length
+  constructor
+  · intro h
+    have := hl 33 h
+    simp only [multisigScriptN, List.length_append, List.length_cons, List.length_nil]
+    split at c1 <;> split at c2 <;> omega
+  · intro h
+    have := hl 65 h
+    simp only [multisigScriptN, List.length_append, List.length_cons, List.length_nil]
+    split at c1 <;> split at c2 <;> omega
 
 /-! ## partial signing -/
 
 /-- **Order independence of partial signing (combinatorial half).**  The list handed to the signature variables depends only
 on the *multiset* of `(key index, signature)` pairs collected — re-found in the input plus freshly made — not on the order in
 which they were collected, i.e. not on the order of earlier signing passes.
-Extra hypothesis relative to the property (hence `_partial`): that two orders of passes lead to the same multiset, which
-holds when ECDSA-verify accepts each emitted signature for its own key and for no other listed key (C01 + unforgeability);
-the harness checks the full statement on the implementation for every order of passes (n ≤ 4) and sampled beyond. -/
+Extra hypothesis relative to the property (hence `_partial`): that two orders of passes lead to the same multiset.  That
+hypothesis is discharged from the model in `C05_partial_order_independent_passes_partial` below (sequences of passes, each
+re-finding the signatures of the earlier ones by verification), leaving only the two unforgeability-style hypotheses; the
+harness checks the full statement on the implementation for every order of passes (n ≤ 4) and sampled beyond. -/
 theorem C05_partial_order_independent_partial (nSigs : Nat) (placeholder : Option Bytes) (ex₁ ex₂ : List (Int × Bytes))
     (h : ex₁.Perm ex₂) : assemble nSigs placeholder ex₁ = assemble nSigs placeholder ex₂ := by
   unfold assemble
@@ -555,44 +661,13 @@ theorem C05_partial_order_independent_partial (nSigs : Nat) (placeholder : Optio
     simp only [hl]
     rw [sortSigs_eq_of_perm (List.Perm.append_right _ h)]
 
-theorem sigLe_refl (a : Int × Bytes) : sigLe a a = true := by
-  unfold sigLe; simp [bytesLt_irrefl]
-
-/-- with `k` missing signatures the placeholder sits in the first `k` slots and the signatures follow by key index -/
-theorem sortSigs_padded (ex : List (Int × Bytes)) (ph : Bytes) (k : Nat) (hidx : ∀ p ∈ ex, 0 ≤ p.1) :
-    sortSigs (ex ++ List.replicate k ((-1 : Int), ph)) = List.replicate k ((-1 : Int), ph) ++ sortSigs ex := by
-  apply List.Perm.eq_of_pairwise (le := fun x y => sigLe x y = true)
-  · intro a b _ _ h1 h2; exact sigLe_antisymm a b h1 h2
-  · exact sortSigs_sorted _
-  · rw [List.pairwise_append]
-    refine ⟨?_, sortSigs_sorted ex, ?_⟩
-    · rw [List.pairwise_replicate]
-      right; exact sigLe_refl _
-    · intro a ha b hb
-      rw [List.mem_replicate] at ha
-      have hb' := (sortSigs_perm ex).subset hb
-      have := hidx b hb'
-      rw [ha.2]
-      unfold sigLe
-      have : (-1 : Int) < b.1 := by omega
-      simp [this]
-  · exact (sortSigs_perm _).trans (List.perm_append_comm.trans (List.Perm.append_left _ (sortSigs_perm ex).symm))
-
 /-- **Complete exactly when `m` signatures are there.**  With `j ≤ m` collected signatures (key indices ≥ 0) the result is
 `m − j` placeholders followed by the `j` signatures in key-index order: no placeholder iff `j = m`. -/
 theorem C05_partial_placeholders (nSigs : Nat) (ph : Bytes) (ex : List (Int × Bytes)) (hidx : ∀ p ∈ ex, 0 ≤ p.1)
     (hle : ex.length ≤ nSigs) :
     assemble nSigs (some ph) ex =
-      List.replicate (nSigs - ex.length) (some ph) ++ (sortSigs ex).map (fun t => some t.2) := by
-  unfold assemble
-  simp only [sortSigs_padded ex ph _ hidx]
-  have hlen : (sortSigs ex).length = ex.length := (sortSigs_perm ex).length_eq
-  simp only [List.map_append, List.map_replicate, List.length_append, List.length_replicate, List.length_map, hlen]
-  have : nSigs - (nSigs - ex.length + ex.length) = 0 := by omega
-  rw [this]
-  simp only [List.replicate_zero, List.append_nil]
-  apply List.take_of_length_le
-  simp [hlen]; omega
+      List.replicate (nSigs - ex.length) (some ph) ++ (sortSigs ex).map (fun t => some t.2) :=
+  assemble_placeholders nSigs ph ex hidx hle
 
 
 /-! ## the placeholder -/
@@ -863,11 +938,554 @@ theorem C05_p2pk_end_to_end (coin : Coin) (tx : Tx) (us : List (Option TxOut)) (
     · rw [hfd sig hcan]; exact hchk
 
 
+/-! ## m-of-n with ECDSA and the digest instantiated: end to end, and pass by pass -/
+
+/-- the listed keys `K` (= `sec_list`, i.e. the keys of the script last first) and the secrets that control them -/
+structure HonestKeys (K : List Bytes) (d x y : Nat → Int) (comp : Nat → Bool) : Prop where
+  pub : ∀ i, i < K.length → mulG k1 0 (d i) = .ok (some (x i, y i))
+  sec : ∀ i k, K[i]? = some k → publicPairToSec (x i) (y i) (comp i) = .ok k
+
+/-- `sg i` is what the signer emits with the secret of key `i` for digest `z` and hash type `ht` (RFC 6979: there is one) -/
+def SignsWith (K : List Bytes) (d : Nat → Int) (z : Int) (ht : Nat) (sg : Nat → Bytes) : Prop :=
+  ∀ i, i < K.length → ∃ r s, secp256k1Crypto.sign (d i) z = .ok (r, s) ∧
+    binarySignature r (lowS secp256k1Crypto.order s) ht = .ok (sg i)
+
+/-- what a lookup holds for a listed key is that key's secret -/
+def LookupFor (K : List Bytes) (d : Nat → Int) (lookup : Lookup) : Prop :=
+  ∀ i k e, K[i]? = some k → lookup (Hash.hash160 k) = some e → e.secret = d i
+
+theorem sv_witness (w : Wrap) : (w.sv == SigVersion.witnessV0) = w.witness := by cases w <;> rfl
+
+theorem getElem?_of_lt {K : List Bytes} {i : Nat} (h : i < K.length) : ∃ k, K[i]? = some k :=
+  ⟨K[i], List.getElem?_eq_getElem h⟩
+
+theorem lt_of_getElem? {K : List Bytes} {i : Nat} {k : Bytes} (h : K[i]? = some k) : i < K.length :=
+  (List.getElem?_eq_some_iff.mp h).1
+
+/-- C01, C10 and the canonical-signature theorem for one listed key -/
+theorem own_facts {K : List Bytes} {d x y : Nat → Int} {comp : Nat → Bool} {sg : Nat → Bytes} {z : Int} {ht : Nat}
+    (HK : HonestKeys K d x y comp) (hsg : SignsWith K d z ht sg) (hht : ht ≤ 255) {i : Nat} {k : Bytes}
+    (hk : K[i]? = some k) :
+    Canonical ht (sg i) ∧ secp256k1Crypto.secToPair k = some (some (x i, y i)) ∧
+    ∃ r s : Int, 1 ≤ r ∧ r < secp256k1N ∧ 1 ≤ lowS secp256k1N s ∧ lowS secp256k1N s < secp256k1N ∧
+      secp256k1Crypto.sign (d i) z = .ok (r, s) ∧ binarySignature r (lowS secp256k1N s) ht = .ok (sg i) ∧
+      secp256k1Crypto.verify (some (x i, y i)) z r (lowS secp256k1N s) = .ok true ∧
+      (∀ coin tx us idx sv code, modelSighash coin tx us idx (sv == .witnessV0) code ht = some z →
+        realChk coin tx us idx (sg i) k code sv = true) := by
+  have hi := lt_of_getElem? hk
+  obtain ⟨r, s, hsign, hbin⟩ := hsg i hi
+  obtain ⟨a1, a2, a3, a4, hver⟩ := sign_facts hsign (HK.pub i hi)
+  obtain ⟨sig, hsig, hcan, _⟩ := C05_sig_canonical r s ht a1 a2 a3 a4 hht
+  obtain ⟨l1, l2, _⟩ := lowS_range a3 a4
+  have hdec := key_decodes (HK.pub i hi) (HK.sec i k hk)
+  rw [k1_order] at hbin hver
+  rw [hbin] at hsig; cases hsig
+  refine ⟨hcan, hdec, r, s, a1, a2, l1, l2, hsign, hbin, hver, ?_⟩
+  intro coin tx us idx sv code hz
+  exact C05_ecdsa_chk_accepts secp256k1Crypto k1_order _ sv code k (sg i) (some (x i, y i)) z r s ht hht a1 a2 a3 a4 hz hdec
+    (by rw [k1_order]; exact hver) (by rw [k1_order]; exact hbin)
+
+theorem lookupHonest_of {K : List Bytes} {d x y : Nat → Int} {comp : Nat → Bool} {sg : Nat → Bytes} {z : Int} {ht : Nat}
+    (HK : HonestKeys K d x y comp) (hsg : SignsWith K d z ht sg) {lookup : Lookup} (hl : LookupFor K d lookup) :
+    LookupHonest secp256k1Crypto lookup ht z sg (enumFrom 0 K).reverse := by
+  intro p hp
+  obtain ⟨_, hK⟩ := enumFrom_get 0 K p (List.mem_reverse.mp hp)
+  simp only [Nat.sub_zero] at hK
+  have hi := lt_of_getElem? hK
+  constructor
+  · intro e he
+    obtain ⟨r, s, hsign, hbin⟩ := hsg p.1 hi
+    exact ⟨r, s, by rw [hl p.1 p.2 e hK he]; exact hsign, hbin⟩
+  · intro _
+    rw [key_decodes (HK.pub p.1 hi) (HK.sec p.1 p.2 hK)]; rfl
+
+theorem sizesOk_of {keys : List Bytes} {d x y : Nat → Int} {comp : Nat → Bool} {sg : Nat → Bytes} {z : Int} {ht : Nat}
+    (HK : HonestKeys keys.reverse d x y comp) (hsg : SignsWith keys.reverse d z ht sg) (hht : ht ≤ 255) {ph : Bytes}
+    (hph : 2 ≤ ph.length ∧ ph.length ≤ 75) : SizesOk keys sg ph := by
+  refine ⟨?_, ?_, hph⟩
+  · intro k hk
+    obtain ⟨i, hi⟩ := List.mem_iff_getElem?.mp (List.mem_reverse.mpr hk)
+    obtain ⟨_, _, h3⟩ := publicPairToSec_shape (HK.sec i k hi)
+    omega
+  · intro i hi
+    obtain ⟨k, hk⟩ := getElem?_of_lt hi
+    obtain ⟨hcan, _⟩ := own_facts HK hsg hht hk
+    obtain ⟨h9, h73⟩ := valid_sig_length hcan.1
+    omega
+
+theorem keysEncoding_of {keys : List Bytes} {d x y : Nat → Int} {comp : Nat → Bool}
+    (HK : HonestKeys keys.reverse d x y comp) (w : Wrap) (flags : Flags) (hcomp : w.witness = true → ∀ i, comp i = true) :
+    ∀ k ∈ keys, checkPubKeyEncoding k flags w.sv = none := by
+  intro k hk
+  obtain ⟨i, hi⟩ := List.mem_iff_getElem?.mp (List.mem_reverse.mpr hk)
+  obtain ⟨h1, h2, _⟩ := publicPairToSec_shape (HK.sec i k hi)
+  unfold checkPubKeyEncoding
+  cases hw : w.witness with
+  | false =>
+    have : w.sv = .base := by unfold Wrap.sv; rw [hw]; rfl
+    simp [h1, this]
+  | true => simp [h1, h2 (hcomp hw i)]
+
+/-- the digest `CheckSig` sees for the signature variables `sigs` is the digest that was signed -/
+def CodeIs (w : Wrap) (ms : Bytes) (flags : Flags) (txc : TxCtx) (sigs : List Bytes) : Prop :=
+  scriptCodeFor ⟨ms, flags, w.sv, txc⟩ ⟨[], [], [], 0, 0⟩ sigs = ms
+
+theorem codeIs_witness (w : Wrap) (ms : Bytes) (flags : Flags) (txc : TxCtx) (sigs : List Bytes) (hw : w.witness = true) :
+    CodeIs w ms flags txc sigs := by
+  unfold CodeIs
+  have : w.sv = .witnessV0 := by unfold Wrap.sv; rw [hw]; rfl
+  rw [this]; exact scriptCodeFor_witness' ms flags txc sigs
+
+/-- **m-of-n multisig, end to end, the four wrappers** (bare, P2SH, P2WSH, P2SH-P2WSH; every `1 ≤ m ≤ n ≤ 20`).  For listed keys
+`d i • G`, a lookup that holds the secrets of at least `m` of them (and possibly of others), the digest of C04's model and RFC
+6979 signing succeeding for it: the model's `solveBase` on the fresh input returns the dummy and `m` signatures — those of the
+first `m` listed keys the lookup holds, in script order, no placeholder — and the consensus specification accepts the spend
+built from them as `Solver.solve` builds it (`Wrap.scriptSig`, `Wrap.wit`), with `CheckSig` = ECDSA-verify of that very digest.
+`hcode`: as for P2PKH, Core deletes the pushed signatures from a legacy script code before hashing; the signer hashes the script
+as it stands (for witness scripts this holds by definition: `codeIs_witness`). -/
+theorem C05_multisig_end_to_end (w : Wrap) (coin : Coin) (tx : Tx) (us : List (Option TxOut)) (idx : Nat) (lookup : Lookup)
+    (ph : Bytes) (m : Nat) (keys : List Bytes) (d x y : Nat → Int) (comp : Nat → Bool) (sg : Nat → Bytes) (z : Int) (ht : Nat)
+    (flags : Flags) (txc : TxCtx)
+    (hm1 : 1 ≤ m) (hmn : m ≤ keys.length) (hn : keys.length ≤ 20)
+    (HK : HonestKeys keys.reverse d x y comp)
+    (hz : modelSighash coin tx us idx w.witness (multisigScriptN m keys) ht = some z)
+    (hsg : SignsWith keys.reverse d z ht sg) (hl : LookupFor keys.reverse d lookup)
+    (henough : m ≤ card keys.reverse.length (inTOf lookup keys.reverse))
+    (hht : ht ≤ 255) (hstd : standardHashType ht ∨ flags.strictenc = false)
+    (hcomp : w.witness = true → ∀ i, comp i = true)
+    (ok : w.Ok (multisigScriptN m keys) flags) (hph : 2 ≤ ph.length ∧ ph.length ≤ 75)
+    (hcode : ∀ sigs, (∀ s ∈ sigs, Canonical ht s) → CodeIs w (multisigScriptN m keys) flags txc sigs) :
+    ∃ sgn : Nat → Bool, card keys.reverse.length sgn = m ∧ (∀ i, sgn i = true → inTOf lookup keys.reverse i = true) ∧
+      solveBase secp256k1Crypto lookup (modelSighash coin tx us idx w.witness (multisigScriptN m keys)) [] ht (some ph)
+        (.multisig m keys) = .ok ((stateSolved keys.reverse.length m sg ph sgn).map some) ∧
+      verifyScript (realChk coin tx us idx)
+        (w.scriptSig (multisigScriptN m keys) (stateSolved keys.reverse.length m sg ph sgn))
+        (w.spk (multisigScriptN m keys))
+        (w.wit (multisigScriptN m keys) (stateSolved keys.reverse.length m sg ph sgn)) flags txc = none := by
+  let sgn := passSet keys.reverse.length m (fun _ => false) (inTOf lookup keys.reverse)
+  have hcard : card keys.reverse.length sgn = m := by
+    have h1 := pass_card keys.reverse.length m (fun _ => false) (inTOf lookup keys.reverse)
+    have h2 := card_union keys.reverse.length (fun _ => false) (inTOf lookup keys.reverse)
+    have h3 : card keys.reverse.length (fun i => false || inTOf lookup keys.reverse i) =
+        card keys.reverse.length (inTOf lookup keys.reverse) := card_congr (fun i _ => by simp)
+    have h0 : card keys.reverse.length (fun _ => false) = 0 := by rw [card_eq_countP]; simp
+    show card keys.reverse.length (passSet keys.reverse.length m (fun _ => false) (inTOf lookup keys.reverse)) = m
+    omega
+  have hsub : ∀ i, sgn i = true → inTOf lookup keys.reverse i = true := by
+    intro i hi
+    simp only [sgn, passSet, Bool.false_or, List.contains_iff_mem] at hi
+    exact (mem_picks hi).2.2
+  refine ⟨sgn, hcard, hsub, ?_, ?_⟩
+  · rw [solveBase_multisig_fresh keys hz lookup m ph (lookupHonest_of HK hsg hl), stateSolved_map_some]
+  · have hsigs := stateSigs_full keys.reverse.length m sg ph sgn hcard
+    have hcan : ∀ s ∈ stateSigs keys.reverse.length m sg ph sgn, Canonical ht s := by
+      intro s hs
+      rw [hsigs] at hs
+      obtain ⟨i, hi, rfl⟩ := List.mem_map.mp hs
+      obtain ⟨k, hk⟩ := getElem?_of_lt (mem_signedList.mp hi).1
+      exact (own_facts HK hsg hht hk).1
+    apply state_accept (realChk coin tx us idx) w m keys sg ph sgn flags txc ok hm1 hmn hn (sizesOk_of HK hsg hht hph) hcard
+    · intro i hlt _
+      obtain ⟨k, hk⟩ := getElem?_of_lt hlt
+      exact C05_sig_passes_encoding_checks (own_facts HK hsg hht hk).1 flags hstd
+    · exact keysEncoding_of HK w flags hcomp
+    · intro i k hk _
+      obtain ⟨_, _, r, s, _, _, _, _, _, _, _, hchk⟩ := own_facts HK hsg hht hk
+      apply hchk
+      rw [hcode _ hcan, sv_witness]
+      exact hz
+
+/-! ### pass by pass -/
+
+/-- unforgeability-style hypothesis: the signature made with the secret of listed key `i` does not verify for another listed
+key `j` (for given `(r, s, z)` at most the two keys recoverable from them verify at all) -/
+def NoCross (K : List Bytes) (d x y : Nat → Int) (z : Int) : Prop :=
+  ∀ i j, i < K.length → j < K.length → i ≠ j → ∀ r s, secp256k1Crypto.sign (d i) z = .ok (r, s) →
+    secp256k1Crypto.verify (some (x j, y j)) z r (lowS secp256k1Crypto.order s) = .ok false
+
+/-- unforgeability-style hypothesis: the placeholder `(r, s) = (n − 1, (n − 1)/2)` verifies for no key and digest -/
+def PlaceholderUnverifiable : Prop :=
+  ∀ Q z, secp256k1Crypto.verify Q z ((secp256k1N - 1 : Nat) : Int) (((secp256k1N - 1) / 2 : Nat) : Int) = .ok false
+
+theorem findKey_unverifiable (C : Crypto) (digest : Digest) (r s : Int) (t : Nat)
+    (hunf : ∀ Q z, C.verify Q z r s = .ok false) : ∀ (keys : List Bytes) (i : Nat), findKey C digest r s t keys i = .ok none := by
+  intro keys
+  induction keys with
+  | nil => intro i; rfl
+  | cons k r' ih =>
+    intro i
+    simp only [findKey]
+    split
+    · rfl
+    · split
+      · rfl
+      · rw [hunf]; exact ih (i + 1)
+
+theorem placeholder_dud (hunf : PlaceholderUnverifiable) (dig : Digest) (K : List Bytes) :
+    Slot.ok secp256k1Crypto dig K (.dud Gen.Sign.defaultPlaceholder) :=
+  ⟨secp256k1N - 1, (secp256k1N - 1) / 2, 1, placeholder_parses, findKey_unverifiable _ _ _ _ _ hunf K 0⟩
+
+theorem placeholder_lax : Gen.Sign.defaultPlaceholder.getLast? = some 1 ∧
+    laxDerParse Gen.Sign.defaultPlaceholder.dropLast = some (secp256k1N - 1, (secp256k1N - 1) / 2) ∧
+    Gen.Sign.defaultPlaceholder.length = 72 := by
+  decide +kernel
+
+/-- the real `CheckSig` rejects the placeholder for every key, script code and signature version -/
+theorem realChk_placeholder (hunf : PlaceholderUnverifiable) (coin : Coin) (tx : Tx) (us : List (Option TxOut)) (idx : Nat)
+    (k code : Bytes) (sv : SigVersion) : realChk coin tx us idx Gen.Sign.defaultPlaceholder k code sv = false := by
+  unfold realChk ecdsaChk
+  rw [placeholder_lax.1, placeholder_lax.2.1]
+  cases secp256k1Crypto.secToPair k with
+  | none => rfl
+  | some Q =>
+    simp only []
+    cases modelSighash coin tx us idx (sv == SigVersion.witnessV0) code (1 : UInt8).toNat with
+    | none => rfl
+    | some z' => simp only []; rw [hunf]
+
+theorem sigdecodeDerLax_not30 (b0 : UInt8) (l : Bytes) (h0 : b0 ≠ 0x30) : sigdecodeDerLax (b0 :: l) = none := by
+  unfold sigdecodeDerLax
+  split
+  · rename_i heq
+    injection heq with h1 _
+    exact absurd h1 h0
+  · rfl
+
+/-- a multisig script is not taken for a signature by `parse_signature_blob` -/
+theorem parseSignatureBlob_multisigScriptN (m : Nat) (keys : List Bytes) (hm : m ≤ 20) :
+    parseSignatureBlob (multisigScriptN m keys) = none := by
+  have key : ∀ (b0 : UInt8) (t : Bytes), b0 ≠ 0x30 → t ≠ [] → parseSignatureBlob (b0 :: t) = none := by
+    intro b0 t h0 ht
+    have hd : (b0 :: t).dropLast = b0 :: t.dropLast := by
+      cases t with
+      | nil => exact absurd rfl ht
+      | cons a r => rfl
+    unfold parseSignatureBlob
+    rw [hd, sigdecodeDerLax_not30 b0 _ h0]
+    cases (b0 :: t).getLast? <;> rfl
+  by_cases h16 : m ≤ 16
+  · have tm : (UInt8.ofNat (0x50 + m)).toNat = 0x50 + m := toNat_ofNat_lt (by omega)
+    have e : multisigScriptN m keys = UInt8.ofNat (0x50 + m) :: (pushesOf keys ++ (countPush keys.length ++ [0xae])) := by
+      simp [multisigScriptN, countPush, h16]
+    rw [e]
+    apply key
+    · intro h; have := congrArg UInt8.toNat h; rw [tm] at this; simp at this; omega
+    · simp
+  · have e : multisigScriptN m keys = 0x01 :: (UInt8.ofNat m :: (pushesOf keys ++ (countPush keys.length ++ [0xae]))) := by
+      simp [multisigScriptN, countPush, h16]
+    rw [e]
+    exact key _ _ (by decide) (by simp)
+
+theorem keyFacts_of {K : List Bytes} {d x y : Nat → Int} {comp : Nat → Bool} {sg : Nat → Bytes} {z : Int} {ht : Nat}
+    {dig : Digest} (HK : HonestKeys K d x y comp) (hsg : SignsWith K d z ht sg) (hht : ht ≤ 255) (hz : dig ht = some z)
+    (hcross : NoCross K d x y z) : KeyFacts secp256k1Crypto dig ht z K sg := by
+  refine ⟨hz, ?_⟩
+  intro i hi
+  obtain ⟨k, hk⟩ := getElem?_of_lt hi
+  obtain ⟨_, _, r, s, a1, a2, l1, l2, hsign, hbin, hver, _⟩ := own_facts HK hsg hht hk
+  have hN := secp256k1N_lt
+  have e1 : ((r.toNat : Nat) : Int) = r := by omega
+  have e2 : (((lowS secp256k1N s).toNat : Nat) : Int) = lowS secp256k1N s := by omega
+  refine ⟨r.toNat, (lowS secp256k1N s).toNat, ?_, ?_⟩
+  · apply parseSignatureBlob_binarySignature (by omega) (by omega) (by omega) (by omega)
+    rw [e1, e2]; exact hbin
+  · intro j kj hkj
+    obtain ⟨_, hdec, _⟩ := own_facts HK hsg hht hkj
+    refine ⟨some (x j, y j), hdec, ?_⟩
+    rw [e1, e2]
+    by_cases hij : i = j
+    · subst hij; simp [hver]
+    · have := hcross i j hi (lt_of_getElem? hkj) hij r s hsign
+      rw [k1_order] at this
+      simp [this, hij]
+
+theorem stateSlots_render' (n m : Nat) (sg : Nat → Bytes) (ph : Bytes) (sgn : Nat → Bool) (extra : List Bytes) :
+    (stateSlots n m ph sgn extra).map (·.render sg) = stateSolved n m sg ph sgn ++ extra := by
+  rw [stateSlots_render, stateSolved_eq]
+
+/-- **Partial signing, pass by pass, on the model** (`_partial`: the two unforgeability-style hypotheses `hcross`, `hunf` are
+extra — they cannot be proved, only not refuted).  Any non-empty sequence of signing passes over a fresh m-of-n input, each with
+its own lookup holding secrets of listed keys, each reading the blobs the pass before left (the solved items, then the redeem /
+witness script): the model ends in the state `runSets …` — the dummy, `m − j` placeholders, and the signatures of the `j` keys
+that signed, in key order — where `j = min m (number of distinct listed keys supplied over all passes)`; and the consensus
+specification accepts the spend built from it **exactly when** `m` distinct listed keys have been supplied, whatever the
+wrapper, with `CheckSig` = ECDSA-verify of the C04 digest.  With fewer, placeholders remain and it is rejected. -/
+theorem C05_partial_passes_partial (w : Wrap) (coin : Coin) (tx : Tx) (us : List (Option TxOut)) (idx : Nat)
+    (m : Nat) (keys : List Bytes) (d x y : Nat → Int) (comp : Nat → Bool) (sg : Nat → Bytes) (z : Int) (ht : Nat)
+    (flags : Flags) (txc : TxCtx) (ls : List Lookup) (hne : ls ≠ [])
+    (hm1 : 1 ≤ m) (hmn : m ≤ keys.length) (hn : keys.length ≤ 20)
+    (HK : HonestKeys keys.reverse d x y comp)
+    (hz : modelSighash coin tx us idx w.witness (multisigScriptN m keys) ht = some z)
+    (hsg : SignsWith keys.reverse d z ht sg) (hl : ∀ l ∈ ls, LookupFor keys.reverse d l)
+    (hcross : NoCross keys.reverse d x y z) (hunf : PlaceholderUnverifiable)
+    (hht : ht ≤ 255) (hstd : standardHashType ht ∨ flags.strictenc = false)
+    (hcomp : w.witness = true → ∀ i, comp i = true)
+    (ok : w.Ok (multisigScriptN m keys) flags)
+    (hcode : ∀ sigs, (∀ s ∈ sigs, Canonical ht s) → CodeIs w (multisigScriptN m keys) flags txc sigs) :
+    runPasses secp256k1Crypto (modelSighash coin tx us idx w.witness (multisigScriptN m keys)) ht Gen.Sign.defaultPlaceholder m
+        keys (w.extra (multisigScriptN m keys)) ls [] =
+      .ok (stateSolved keys.reverse.length m sg Gen.Sign.defaultPlaceholder
+        (runSets keys.reverse.length m (ls.map (fun l => inTOf l keys.reverse)) (fun _ => false)) ++
+          w.extra (multisigScriptN m keys)) ∧
+    card keys.reverse.length (runSets keys.reverse.length m (ls.map (fun l => inTOf l keys.reverse)) (fun _ => false)) =
+      min m (card keys.reverse.length (unionSets (ls.map (fun l => inTOf l keys.reverse)) (fun _ => false))) ∧
+    (verifyScript (realChk coin tx us idx)
+        (w.scriptSig (multisigScriptN m keys) (stateSolved keys.reverse.length m sg Gen.Sign.defaultPlaceholder
+          (runSets keys.reverse.length m (ls.map (fun l => inTOf l keys.reverse)) (fun _ => false))))
+        (w.spk (multisigScriptN m keys))
+        (w.wit (multisigScriptN m keys) (stateSolved keys.reverse.length m sg Gen.Sign.defaultPlaceholder
+          (runSets keys.reverse.length m (ls.map (fun l => inTOf l keys.reverse)) (fun _ => false)))) flags txc = none
+      ↔ m ≤ card keys.reverse.length (unionSets (ls.map (fun l => inTOf l keys.reverse)) (fun _ => false))) := by
+  have F := keyFacts_of HK hsg hht hz hcross
+  have h0 : card keys.reverse.length (fun _ => false) ≤ m := by rw [card_eq_countP]; simp
+  have hcardeq := runSets_card keys.reverse.length m (ls.map (fun l => inTOf l keys.reverse)) (fun _ => false) h0
+  have hph : 2 ≤ Gen.Sign.defaultPlaceholder.length ∧ Gen.Sign.defaultPlaceholder.length ≤ 75 := by
+    rw [placeholder_lax.2.2]; omega
+  have hextra : ∀ b ∈ w.extra (multisigScriptN m keys), parseSignatureBlob b = none := by
+    intro b hb
+    have : b = multisigScriptN m keys := by
+      cases w <;> simp [Wrap.extra] at hb <;> exact hb
+    rw [this]; exact parseSignatureBlob_multisigScriptN m keys (by omega)
+  refine ⟨?_, hcardeq, ?_⟩
+  · cases ls with
+    | nil => exact absurd rfl hne
+    | cons l ls' =>
+      rw [runPasses_fresh keys F m _ _ (placeholder_dud hunf _ _) hextra l ls'
+        (fun l' hl' => lookupHonest_of HK hsg (hl l' hl')), stateSlots_render']
+  · generalize hsgn : runSets keys.reverse.length m (ls.map (fun l => inTOf l keys.reverse)) (fun _ => false) = sgn at *
+    constructor
+    · intro hv
+      apply Classical.byContradiction
+      intro hlt
+      have hfew : card keys.reverse.length sgn < m := by omega
+      exact state_reject (realChk coin tx us idx) w m keys sg _ sgn flags txc ok hm1 hmn hn (sizesOk_of HK hsg hht hph) hfew
+        (fun k _ => realChk_placeholder hunf coin tx us idx k _ _) hv
+    · intro hge
+      have hcard : card keys.reverse.length sgn = m := by omega
+      have hsigs := stateSigs_full keys.reverse.length m sg Gen.Sign.defaultPlaceholder sgn hcard
+      have hcan : ∀ s ∈ stateSigs keys.reverse.length m sg Gen.Sign.defaultPlaceholder sgn, Canonical ht s := by
+        intro s hs
+        rw [hsigs] at hs
+        obtain ⟨i, hi, rfl⟩ := List.mem_map.mp hs
+        obtain ⟨k, hk⟩ := getElem?_of_lt (mem_signedList.mp hi).1
+        exact (own_facts HK hsg hht hk).1
+      apply state_accept (realChk coin tx us idx) w m keys sg _ sgn flags txc ok hm1 hmn hn (sizesOk_of HK hsg hht hph) hcard
+      · intro i hlt _
+        obtain ⟨k, hk⟩ := getElem?_of_lt hlt
+        exact C05_sig_passes_encoding_checks (own_facts HK hsg hht hk).1 flags hstd
+      · exact keysEncoding_of HK w flags hcomp
+      · intro i k hk _
+        obtain ⟨_, _, r, s, _, _, _, _, _, _, _, hchk⟩ := own_facts HK hsg hht hk
+        apply hchk
+        rw [hcode _ hcan, sv_witness]
+        exact hz
+
+/-- **The order of the passes does not matter, on the model** (`_partial`: hypotheses `hcross`, `hunf` as in
+`C05_partial_passes_partial`).  For two orderings `ls₁ ~ ls₂` of the same signing passes over a fresh m-of-n input: the number of
+signatures present at the end is the same, so the spend is valid after the one exactly when it is valid after the other; and
+as long as no more than `m` distinct listed keys are supplied in total, the blobs left are identical byte for byte.  (With more
+than `m` keys on offer, which `m` of them sign does depend on the order — every choice is valid.)  This replaces the
+hypothesis of `C05_partial_order_independent_partial` (that both orders collect the same multiset) by a derivation from the
+model: existing signatures are re-found by verification, RFC 6979 makes each key's signature unique. -/
+theorem C05_partial_order_independent_passes_partial (w : Wrap) (coin : Coin) (tx : Tx) (us : List (Option TxOut)) (idx : Nat)
+    (m : Nat) (keys : List Bytes) (d x y : Nat → Int) (comp : Nat → Bool) (sg : Nat → Bytes) (z : Int) (ht : Nat)
+    (flags : Flags) (txc : TxCtx) (ls₁ ls₂ : List Lookup) (hperm : ls₁.Perm ls₂) (hne : ls₁ ≠ [])
+    (hm1 : 1 ≤ m) (hmn : m ≤ keys.length) (hn : keys.length ≤ 20)
+    (HK : HonestKeys keys.reverse d x y comp)
+    (hz : modelSighash coin tx us idx w.witness (multisigScriptN m keys) ht = some z)
+    (hsg : SignsWith keys.reverse d z ht sg) (hl : ∀ l ∈ ls₁, LookupFor keys.reverse d l)
+    (hcross : NoCross keys.reverse d x y z) (hunf : PlaceholderUnverifiable)
+    (hht : ht ≤ 255) (hstd : standardHashType ht ∨ flags.strictenc = false)
+    (hcomp : w.witness = true → ∀ i, comp i = true)
+    (ok : w.Ok (multisigScriptN m keys) flags)
+    (hcode : ∀ sigs, (∀ s ∈ sigs, Canonical ht s) → CodeIs w (multisigScriptN m keys) flags txc sigs) :
+    let run := fun ls => runPasses secp256k1Crypto (modelSighash coin tx us idx w.witness (multisigScriptN m keys)) ht
+      Gen.Sign.defaultPlaceholder m keys (w.extra (multisigScriptN m keys)) ls []
+    let final := fun (ls : List Lookup) => runSets keys.reverse.length m (ls.map (fun l => inTOf l keys.reverse)) (fun _ => false)
+    let valid := fun (ls : List Lookup) => verifyScript (realChk coin tx us idx)
+        (w.scriptSig (multisigScriptN m keys) (stateSolved keys.reverse.length m sg Gen.Sign.defaultPlaceholder (final ls)))
+        (w.spk (multisigScriptN m keys))
+        (w.wit (multisigScriptN m keys) (stateSolved keys.reverse.length m sg Gen.Sign.defaultPlaceholder (final ls)))
+        flags txc = none
+    card keys.reverse.length (final ls₁) = card keys.reverse.length (final ls₂) ∧ (valid ls₁ ↔ valid ls₂) ∧
+    (card keys.reverse.length (unionSets (ls₁.map (fun l => inTOf l keys.reverse)) (fun _ => false)) ≤ m → run ls₁ = run ls₂) := by
+  intro run final valid
+  have hne2 : ls₂ ≠ [] := by
+    intro h; rw [h] at hperm; exact hne hperm.eq_nil
+  have hl2 : ∀ l ∈ ls₂, LookupFor keys.reverse d l := fun l hl' => hl l (hperm.mem_iff.mpr hl')
+  have hpT : (ls₁.map (fun l => inTOf l keys.reverse)).Perm (ls₂.map (fun l => inTOf l keys.reverse)) := hperm.map _
+  have h0 : card keys.reverse.length (fun _ => false) ≤ m := by rw [card_eq_countP]; simp
+  obtain ⟨r1, c1, v1⟩ := C05_partial_passes_partial w coin tx us idx m keys d x y comp sg z ht flags txc ls₁ hne hm1 hmn hn HK hz hsg
+    hl hcross hunf hht hstd hcomp ok hcode
+  obtain ⟨r2, c2, v2⟩ := C05_partial_passes_partial w coin tx us idx m keys d x y comp sg z ht flags txc ls₂ hne2 hm1 hmn hn HK hz
+    hsg hl2 hcross hunf hht hstd hcomp ok hcode
+  have hu : card keys.reverse.length (unionSets (ls₁.map (fun l => inTOf l keys.reverse)) (fun _ => false)) =
+      card keys.reverse.length (unionSets (ls₂.map (fun l => inTOf l keys.reverse)) (fun _ => false)) :=
+    card_congr (fun i _ => unionSets_perm hpT _ i)
+  refine ⟨runSets_perm_card _ m hpT _ h0, ?_, ?_⟩
+  · show valid ls₁ ↔ valid ls₂
+    simp only [valid, final]
+    rw [v1, v2, hu]
+  · intro hfit
+    show run ls₁ = run ls₂
+    simp only [run]
+    rw [r1, r2, stateSolved_congr _ m sg _ (runSets_perm_eq _ m hpT _ hfit)]
+
+/-- **Wrong keys leave the input failing validation** (`_partial`: `hwrong` is unforgeability-style).  Whatever secrets the lookup
+maps the listed keys' hashes to — `sg i` is the signature the lookup's entry for key `i` makes, right secret or not — the model's
+first pass fills the signature variables with them; if one of those it used verifies for no listed key (a signature made with
+another secret: it is valid for *that* secret's key only), the consensus specification rejects the spend, whatever the wrapper
+and however many other signatures are good. -/
+theorem C05_multisig_wrong_key_rejected_partial (chk : PChk) (w : Wrap) (dig : Digest) (lookup : Lookup) (ph : Bytes) (m : Nat)
+    (keys : List Bytes) (sg : Nat → Bytes) (z : Int) (ht : Nat) (flags : Flags) (txc : TxCtx)
+    (hm1 : 1 ≤ m) (hmn : m ≤ keys.length) (hn : keys.length ≤ 20) (hz : dig ht = some z)
+    (hh : LookupHonest secp256k1Crypto lookup ht z sg (enumFrom 0 keys.reverse).reverse)
+    (hs : SizesOk keys sg ph) (ok : w.Ok (multisigScriptN m keys) flags)
+    (bad : Nat) (hbad : passSet keys.reverse.length m (fun _ => false) (inTOf lookup keys.reverse) bad = true)
+    (hwrong : ∀ k ∈ keys, ∀ code sv, chk (sg bad) k code sv = false) :
+    solveBase secp256k1Crypto lookup dig [] ht (some ph) (.multisig m keys) =
+      .ok ((stateSolved keys.reverse.length m sg ph
+        (passSet keys.reverse.length m (fun _ => false) (inTOf lookup keys.reverse))).map some) ∧
+    verifyScript chk
+      (w.scriptSig (multisigScriptN m keys) (stateSolved keys.reverse.length m sg ph
+        (passSet keys.reverse.length m (fun _ => false) (inTOf lookup keys.reverse))))
+      (w.spk (multisigScriptN m keys))
+      (w.wit (multisigScriptN m keys) (stateSolved keys.reverse.length m sg ph
+        (passSet keys.reverse.length m (fun _ => false) (inTOf lookup keys.reverse)))) flags txc ≠ none := by
+  have h0 : card keys.reverse.length (fun _ => false) ≤ m := by rw [card_eq_countP]; simp
+  refine ⟨by rw [solveBase_multisig_fresh keys hz lookup m ph hh, stateSolved_map_some], ?_⟩
+  apply state_reject_of_bad chk w m keys sg ph _ flags txc ok hm1 hmn hn hs (pass_card_le _ m _ _ h0)
+  refine ⟨sg bad, ?_, fun k hk => hwrong k hk _ _⟩
+  unfold stateSigs
+  apply List.mem_append_right
+  apply List.mem_map.mpr
+  refine ⟨bad, mem_signedList.mpr ⟨?_, hbad⟩, rfl⟩
+  simp only [passSet, Bool.false_or, List.contains_iff_mem] at hbad
+  exact (mem_picks hbad).1
+
+/-- **What the next pass reads is what this pass wrote.**  `existing_script` of `Solver.solve` — the data pushes of the scriptSig,
+or the witness when there is one — taken from the spend `Solver.solve` builds out of the solved items, is those items followed
+by the redeem / witness script: the list `runPasses` hands from one pass to the next in `C05_partial_passes_partial`. -/
+theorem C05_next_pass_reads_solution (w : Wrap) (ms : Bytes) (items : List Bytes)
+    (hitems : ∀ d ∈ items, d.length = 0 ∨ (2 ≤ d.length ∧ d.length ≤ 75)) (h2 : 2 ≤ ms.length) (h : ms.length ≤ 65535) :
+    existingScript (w.scriptSig ms items) (w.wit ms items) = .ok (items ++ w.extra ms) := by
+  have hlt : ∀ d ∈ items, d.length < 2 ^ 32 := fun d hd => by rcases hitems d hd with h | h <;> omega
+  cases w with
+  | bare =>
+    have := existingScript_pushAll items hlt _ (pushAll_direct items hitems)
+    simpa [Wrap.scriptSig, Wrap.wit, Wrap.witness, Wrap.extra] using this
+  | p2sh =>
+    have := existingScript_pushAll (items ++ [ms]) (by
+      intro d hd
+      rcases List.mem_append.mp hd with hd | hd
+      · exact hlt d hd
+      · simp at hd; subst hd; omega) _ (by
+        rw [List.map_append]; exact pushAll_items_redeem items ms hitems h2 h)
+    simpa [Wrap.scriptSig, Wrap.wit, Wrap.witness, Wrap.extra] using this
+  | p2wsh =>
+    exact existingScript_witness _ _ (by simp [Wrap.wit, Wrap.witness])
+  | p2shP2wsh =>
+    exact existingScript_witness _ _ (by simp [Wrap.wit, Wrap.witness])
+
+/-- **`who_signed` reports exactly the keys that signed** (`_partial`: `hcross`, `hunf` as in `C05_partial_passes_partial`).  For an
+m-of-n input in the state `sgn` the model's passes leave (`stateSolved`: dummy, placeholders, signatures by key index), the
+model of `public_pairs_signed` (`Model/WhoSigned.lean`) run on what the `OP_CHECKMULTISIG` hook finds — the keys, and the top `m`
+stack items — returns the public keys of `sgn`, each exactly once, by key index, with the hash type they signed with; a
+placeholder contributes nothing (on fork-id coins its hash type 1 has no digest at all: `sigHashes` maps that to "matches
+nothing", which is what the repaired `_handle_checkmultisig` does).  `hdig`: the digest attached to a signature blob (script code
+with that one blob deleted, legacy) is the digest that was signed — as `hcode` above.  Recognising the template and unwrapping
+P2SH / P2WSH (`sigOpBlobs`) is tied to the implementation by the `c05_who_signed` correspondence. -/
+theorem C05_who_signed_exact_partial (m : Nat) (keys : List Bytes) (d x y : Nat → Int) (comp : Nat → Bool) (sg : Nat → Bytes)
+    (z : Int) (ht : Nat) (sgn : Nat → Bool) (dig : Bytes → Nat → Option Int)
+    (HK : HonestKeys keys.reverse d x y comp) (hsg : SignsWith keys.reverse d z ht sg)
+    (hcross : NoCross keys.reverse d x y z) (hunf : PlaceholderUnverifiable) (hht : ht ≤ 255)
+    (hc : card keys.reverse.length sgn ≤ m)
+    (hdig : ∀ i, i < keys.reverse.length → dig (sg i) ht = some z) :
+    whoSignedBlobs secp256k1Crypto dig keys.reverse
+        ((stateSolved keys.reverse.length m sg Gen.Sign.defaultPlaceholder sgn).reverse.take m) =
+      .ok ((signedList keys.reverse.length sgn).map (fun i => (some (x i, y i), ht))) := by
+  rw [stateSolved_take _ m sg _ sgn hc]
+  have F := keyFacts_of (dig := fun t => if t = ht then some z else none) HK hsg hht (by simp) hcross
+  apply whoSigned_state secp256k1Crypto keys.reverse (fun i => some (x i, y i)) sg _ m sgn dig z ht
+  · intro j kj hkj
+    exact (own_facts HK hsg hht hkj).2.1
+  · intro i hi
+    obtain ⟨k, hk⟩ := getElem?_of_lt hi
+    obtain ⟨hcan, _⟩ := own_facts HK hsg hht hk
+    obtain ⟨h9, _⟩ := valid_sig_length hcan.1
+    obtain ⟨r, s, hp, hall⟩ := F.sigs i hi
+    refine ⟨by intro h0; rw [h0] at h9; simp at h9, r, s, hp, ?_⟩
+    intro j hj
+    obtain ⟨kj, hkj⟩ := getElem?_of_lt hj
+    obtain ⟨Q, hQ, hv⟩ := hall j kj hkj
+    rw [(own_facts HK hsg hht hkj).2.1] at hQ
+    cases hQ
+    exact hv
+  · exact hdig
+  · refine ⟨by intro h0; have := placeholder_lax.2.2; rw [h0] at this; simp at this, _, _, _, placeholder_parses, ?_⟩
+    intro Q' z'
+    exact hunf Q' z'
+
+/-! ### the hypotheses are satisfiable: a 2-of-3 input evaluated on the model (tests by evaluation, not theorems) -/
+
+section nonvacuity
+
+def exKeyOf (d : Int) : Option (Bytes × Entry) :=
+  match mulG k1 0 d with
+  | .ok (some (x, y)) => (match publicPairToSec x y true with | .ok k => some (k, ⟨d, x, y, true⟩) | _ => none)
+  | _ => none
+
+def exKeys : List Bytes := ([11, 22, 33] : List Int).filterMap (fun d => (exKeyOf d).map (·.1))
+def exZ : Int := 0x1234567890abcdef1234567890abcdef
+def exDig : Digest := fun ht => if ht = 1 then some exZ else none
+def exLookup (ds : List Int) : Lookup := fun h => ((ds.filterMap exKeyOf).find? (fun p => Hash.hash160 p.1 = h)).map (·.2)
+def exChk : PChk := ecdsaChk secp256k1Crypto (fun _ _ => exDig)
+
+/-- passes with the lookups holding the secrets `order`, over a fresh 2-of-3 input wrapped as `w` -/
+def exRun (w : Wrap) (order : List (List Int)) : Except Sign.Err (List Bytes) :=
+  runPasses secp256k1Crypto exDig 1 Gen.Sign.defaultPlaceholder 2 exKeys (w.extra (multisigScriptN 2 exKeys)) (order.map exLookup) []
+
+def exValid (w : Wrap) (ex : Except Sign.Err (List Bytes)) : Bool :=
+  match ex with
+  | .ok blobs =>
+    let items := blobs.take 3
+    verifyScript exChk (w.scriptSig (multisigScriptN 2 exKeys) items) (w.spk (multisigScriptN 2 exKeys))
+      (w.wit (multisigScriptN 2 exKeys) items) standardFlags ⟨1, 0, 0xffffffff⟩ == none
+  | .error _ => false
+
+/-- `NoCross` and `PlaceholderUnverifiable` on the example: the signature of one secret verifies for its own key and for neither
+of the other two; the placeholder for none -/
+def exCross : Bool :=
+  ([11, 22, 33] : List Int).all fun di =>
+    match secp256k1Crypto.sign di exZ with
+    | .ok (r, s) =>
+      ([11, 22, 33] : List Int).all fun dj =>
+        match mulG k1 0 dj with
+        | .ok Q =>
+          (match secp256k1Crypto.verify Q exZ r (lowS secp256k1Crypto.order s) with | .ok b => b == (di == dj) | _ => false) &&
+          (match secp256k1Crypto.verify Q exZ ((secp256k1N - 1 : Nat) : Int) (((secp256k1N - 1) / 2 : Nat) : Int) with
+           | .ok b => !b | _ => false)
+        | _ => false
+    | _ => false
+
+-- one key: a placeholder remains, rejected; the second key: accepted; either order leaves the same bytes
+#guard exKeys.length == 3 && exCross
+#guard !exValid .bare (exRun .bare [[33]]) && exValid .bare (exRun .bare [[33], [11]]) &&
+  exRun .bare [[33], [11]] == exRun .bare [[11], [33]] && exValid .p2shP2wsh (exRun .p2shP2wsh [[22], [11, 22]])
+-- the model's template recogniser reads the scripts of this file, with `OP_n` and with one-byte-push counts
+#guard classify (multisigScriptN 2 exKeys) == some (.multisig 2 exKeys)
+#guard classify (multisigScriptN 17 (List.replicate 18 (exKeys.headD []))) == some (.multisig 17 (List.replicate 18 (exKeys.headD [])))
+-- n = 17 under the full standard flag set (MINIMALDATA included): `01 11` is accepted, `OP_1 … OP_16` cannot say 17
+#guard verifyScript (fun _ _ _ _ => true) (pushesOf [[], List.replicate 9 0x30])
+    (multisigScriptN 1 (List.replicate 17 (List.replicate 33 2))) [] (Flags.ofBits 0x40) ⟨1, 0, 0⟩ == none
+
+end nonvacuity
+
 section digests
 open Pycoin.Sighash
 
 /-- **The digest the witness templates are signed over is the BIP143 digest** (C04): for every well-formed transaction the
-`z` of `C05_p2wpkh_end_to_end` / `C05_p2sh_p2wpkh_end_to_end` / `C05_multisig_p2wsh_valid_partial` exists and is the
+`z` of `C05_p2wpkh_end_to_end` / `C05_p2sh_p2wpkh_end_to_end` / `C05_multisig_p2wsh_valid` exists and is the
 consensus definition (fork-id variants: `C04_forkid_eq_bch`, `C04_forkid_eq_btg`). -/
 theorem C05_witness_digest_is_bip143 (c : Coin) (hc : c ≠ .btg) (tx : Tx) (hwf : tx.WF) (us : List (Option TxOut)) (idx : Nat)
     (hidx : idx < tx.ins.length) (o : TxOut) (hu : us[idx]? = some (some o)) (hamt : U64 o.value) (script : Bytes)
